@@ -338,8 +338,10 @@ var zzArities = []zzArity{
 	{"year", []int{1}, tNull}, {"weekday", []int{1}, tNull}, {"sprintf", []int{1, 2, 3, 4}, tNull},
 }
 
-var symInts = map[string]bool{"between": true, "min": true, "max": true, "type": true, "keys": true,
-	"hour": true, "minute": true, "seconds": true, "day": true, "month": true, "year": true, "weekday": true}
+// (the time built-ins get a concrete instant here: on symbolic instants the
+// calendar functions are uninterpreted and their values cannot be observed;
+// ZZ_C17_Time covers them)
+var symInts = map[string]bool{"between": true, "min": true, "max": true, "type": true, "keys": true}
 
 // ZZ_C17_Arity: a wrong argument count yields null (false for match); any
 // argument types return normally - never a crash.
